@@ -258,6 +258,9 @@ pub struct H
     pub callee_calls: [u32; 3],
     pub sys: Vec<Option<SysId>>,
     pub sys_sigs: Vec<Option<AutoDespawnSignal>>,
+    /// bulk signal scenario: entities whose signals were all dropped / (entity, clone) pairs kept alive
+    pub bulk_dropped: Vec<Entity>,
+    pub bulk_kept: Vec<(Entity, AutoDespawnSignal)>,
 }
 
 impl H
@@ -266,7 +269,7 @@ impl H
     fn for_resolve(prog: Arc<Program>, slots: Vec<Entity>) -> H
     {
         H { prog, slots, insts: Vec::new(), tokens: Vec::new(), created: Vec::new(), runs: Vec::new(), total_runs: 0, sigs: Vec::new(), sig_ent: Vec::new(), known: Vec::new(),
-            wr_keys: [HashSet::new(), HashSet::new()], ewr_members: [HashMap::new(), HashMap::new()], base_entities: 0, callee_seq: 0, callee_calls: [0; 3], sys: Vec::new(), sys_sigs: Vec::new() }
+            wr_keys: [HashSet::new(), HashSet::new()], ewr_members: [HashMap::new(), HashMap::new()], base_entities: 0, callee_seq: 0, callee_calls: [0; 3], sys: Vec::new(), sys_sigs: Vec::new(), bulk_dropped: Vec::new(), bulk_kept: Vec::new() }
     }
     fn resolve(&self, t: &Trig) -> RTrig
     {
@@ -332,6 +335,29 @@ pub fn plain_actor<Ret: MkRet>(inst: u8) -> impl FnMut(Readers, PlainParams, Loc
         let err = interp(ops, inst, run, &mut p);
         log(Ev::BodyEnd { inst, n: run, err });
         Ret::mk(err)
+    }
+}
+
+/// Same as `plain_actor::<()>` but every parameter except the `Local` is a member of one `ParamSet` (a legitimate way of
+/// writing a system; Bevy then reports the system's deferred buffers differently).
+pub fn ps_actor(inst: u8) -> impl FnMut(ParamSet<(Readers, PlainParams)>, Local<u32>) + Send + Sync + 'static
+{
+    let mut cap = 0u32;
+    let canary = Canary(inst);
+    move |mut ps: ParamSet<(Readers, PlainParams)>, mut n: Local<u32>|
+    {
+        let _ = &canary;
+        *n += 1;
+        cap += 1;
+        let ((s, held), chg) = { let mut r = ps.p0(); (r.sample(), r.changed()) };
+        log(Ev::Body { inst, n: *n, cap, s, chg });
+        drop(held);
+        let mut p = ps.p1();
+        let run = p.h.next_run(inst);
+        let prog = p.h.prog.clone();
+        let ops = prog.insts[inst as usize].script(run);
+        let err = interp(ops, inst, run, &mut p);
+        log(Ev::BodyEnd { inst, n: run, err });
     }
 }
 
@@ -420,6 +446,7 @@ fn spawn_actor_cmd(c: &mut Commands, inst: Inst, flavour: Flavour) -> SystemComm
         Flavour::FallibleWarn => c.spawn_system_command(plain_actor::<WarnErr>(inst)),
         Flavour::Exclusive => c.spawn_system_command(excl_actor::<()>(inst)),
         Flavour::ExclusiveWarn => c.spawn_system_command(excl_actor::<WarnErr>(inst)),
+        Flavour::InParamSet => c.spawn_system_command(ps_actor(inst)),
     }
 }
 
@@ -497,13 +524,16 @@ fn interp_basic(op: &Op, u: u32, c: &mut Commands, h: &mut H) -> Option<bool>
                 {
                     (Mode::Persistent, Flavour::FallibleDrop) => { let sc = c.react().on_persistent(b, plain_actor::<DropErr>(i)); publish(c, sc); }
                     (Mode::Persistent, Flavour::Exclusive) => { let sc = c.react().on_persistent(b, excl_actor::<()>(i)); publish(c, sc); }
+                    (Mode::Persistent, Flavour::InParamSet) => { let sc = c.react().on_persistent(b, ps_actor(i)); publish(c, sc); }
                     (Mode::Persistent, _) => { let sc = c.react().on_persistent(b, plain_actor::<()>(i)); publish(c, sc); }
                     (Mode::Revokable, Flavour::FallibleDrop) => { let t = c.react().on_revokable(b, plain_actor::<DropErr>(i)); publish(c, SystemCommand::from(t.clone())); h.tokens[i as usize] = Some(t); }
                     (Mode::Revokable, Flavour::Exclusive) => { let t = c.react().on_revokable(b, excl_actor::<()>(i)); publish(c, SystemCommand::from(t.clone())); h.tokens[i as usize] = Some(t); }
+                    (Mode::Revokable, Flavour::InParamSet) => { let t = c.react().on_revokable(b, ps_actor(i)); publish(c, SystemCommand::from(t.clone())); h.tokens[i as usize] = Some(t); }
                     (Mode::Revokable, _) => { let t = c.react().on_revokable(b, plain_actor::<()>(i)); publish(c, SystemCommand::from(t.clone())); h.tokens[i as usize] = Some(t); }
                     // `on` returns nothing: the reactor's entity stays unknown to the harness
                     (Mode::Cleanup, Flavour::FallibleDrop) => { c.react().on(b, plain_actor::<DropErr>(i)); }
                     (Mode::Cleanup, Flavour::Exclusive) => { c.react().on(b, excl_actor::<()>(i)); }
+                    (Mode::Cleanup, Flavour::InParamSet) => { c.react().on(b, ps_actor(i)); }
                     (Mode::Cleanup, _) => { c.react().on(b, plain_actor::<()>(i)); }
                 }
             }
@@ -567,8 +597,9 @@ fn interp_basic(op: &Op, u: u32, c: &mut Commands, h: &mut H) -> Option<bool>
                 else { w.syscall((), |mut c: Commands, r: Reactor<W1>| { r.run(&mut c); }); }
             });
         }
-        Op::EwrAdd(k, s, data) =>
+        Op::EwrAdd(k, s, data) | Op::EwrAddEc(k, s, data) =>
         {
+            let via_ec = matches!(op, Op::EwrAddEc(..));
             let (k, data) = (*k, *data);
             let e = h.slots[*s as usize];
             c.queue(move |w: &mut World|
@@ -579,7 +610,14 @@ fn interp_basic(op: &Op, u: u32, c: &mut Commands, h: &mut H) -> Option<bool>
                 let full: u8 = if k == 0 { 0b11 } else { 0b111 };
                 w.resource_mut::<H>().ewr_members[k as usize].insert(e, full);
                 log(Ev::Kept { uid: u, n: 1 });
-                if k == 0 { w.syscall((e, data), |In((e, d)): In<(Entity, u32)>, mut c: Commands, r: EntityReactor<T0>| { r.add(&mut c, e, d); }); }
+                if via_ec
+                {
+                    let mut cmds = w.commands();
+                    let mut ec = cmds.entity(e);
+                    if k == 0 { ec.add_world_reactor::<T0>(data); } else { ec.add_world_reactor::<T1>(data); }
+                    w.flush();
+                }
+                else if k == 0 { w.syscall((e, data), |In((e, d)): In<(Entity, u32)>, mut c: Commands, r: EntityReactor<T0>| { r.add(&mut c, e, d); }); }
                 else { w.syscall((e, data), |In((e, d)): In<(Entity, u32)>, mut c: Commands, r: EntityReactor<T1>| { r.add(&mut c, e, d); }); }
             });
         }
@@ -757,7 +795,21 @@ pub fn exec_wop(world: &mut World, op: &WOp, u: u32)
             let v = *v;
             match c { C::A => world.react(|rc| rc.insert(e, A(v))), C::B => world.react(|rc| rc.insert(e, B(v))) }
         }
-        WOp::Gc => garbage_collect_entities(world),
+        WOp::Gc =>
+        {
+            garbage_collect_entities(world);
+            let (dropped, kept) = { let mut h = world.resource_mut::<H>(); (std::mem::take(&mut h.bulk_dropped), std::mem::take(&mut h.bulk_kept)) };
+            if !dropped.is_empty() || !kept.is_empty()
+            {
+                let survivors = dropped.iter().filter(|e| world.get_entity(**e).is_ok()).count() as u32;
+                let lost = kept.iter().filter(|(e, _)| world.get_entity(*e).is_err()).count() as u32;
+                log(Ev::Bulk { uid: u, released: dropped.len() as u32, survivors, held: kept.len() as u32, lost });
+                // the held clones go now; their entities are collected by the following collection
+                let ents: Vec<Entity> = kept.iter().map(|(e, _)| *e).collect();
+                drop(kept);
+                world.resource_mut::<H>().bulk_dropped.extend(ents);
+            }
+        }
         WOp::Poll => schedule_removal_and_despawn_reactors(world),
         WOp::Flush => world.flush(),
         WOp::KillInst(i) => { if let Some(sc) = world.resource::<H>().insts[*i as usize] { world.despawn(*sc); } }
@@ -827,6 +879,25 @@ pub fn exec_wop(world: &mut World, op: &WOp, u: u32)
         WOp::SpawnSysRc(k, key) => crate::sysfam::spawn_sys_rc(world, *k, *key),
         WOp::DropSysRc(k) => { let s = world.resource_mut::<H>().sys_sigs[*k as usize % 4].take(); drop(s); }
         WOp::InsertSys(k, s, key) => { let e = slot(world, *s); crate::sysfam::insert_sys(world, *k, e, *key); }
+        WOp::SigBulk(n, m) =>
+        {
+            let desp = world.resource::<AutoDespawner>().clone();
+            let mut dropped = Vec::new();
+            let mut kept = Vec::new();
+            let mut sigs = Vec::new();
+            for i in 0..*n
+            {
+                let e = world.spawn_empty().id();
+                let sig = desp.prepare(e);
+                if *m > 0 && i % (*m as u16) == 0 { kept.push((e, sig.clone())); } else { dropped.push(e); }
+                sigs.push(sig);
+            }
+            // all first clones go at once, newest first
+            while let Some(s) = sigs.pop() { drop(s); }
+            let mut h = world.resource_mut::<H>();
+            h.bulk_dropped.extend(dropped);
+            h.bulk_kept.extend(kept);
+        }
         WOp::Acc(kind, s, c, v) =>
         {
             let e = slot(world, *s);
@@ -1170,6 +1241,8 @@ fn run_inner(prog: &Arc<Program>)
         callee_calls: [0; 3],
         sys: vec![None; 4],
         sys_sigs: (0..4).map(|_| None).collect(),
+        bulk_dropped: Vec::new(),
+        bulk_kept: Vec::new(),
     };
     // world reactor system entities exist already (counted in `before`); learn nothing about them: they are framework-owned
     for e in &slot_ents { h.slots.push(*e); h.known.push(*e); }
